@@ -239,6 +239,8 @@ class HeapFn(cxx2gal.LoopFn):
                         "let evs := evs ++ [HAllocRec nx %s %s] in let nx := nx + 1 in %s)") % ("pnew", cells, "pnew", sz, k("pnew")))
         if kd in ("CXXNullPtrLiteralExpr", "GNUNullExpr"):
             return k("0")
+        if kd == "StringLiteral" and n.get("value") in self.cfg.get("string_literals", {}):
+            return k(self.cfg["string_literals"][n["value"]])      # an opaque address standing for that text
         if kd == "CXXThisExpr":
             return k(self.this_var())
         if kd in CASTS:
@@ -255,6 +257,8 @@ class HeapFn(cxx2gal.LoopFn):
                 return self.E(inn[0], lambda v: k(self.wrap_type(qual(n), v) if ctype(qual(n))[0] == "int" else v))
             if ck == "BitCast" and (self.coqtype_safe(qual(inn[0])) == "hptr") != (self.coqtype_safe(qual(n)) == "hptr"):
                 raise Unsupported("cast between a record pointer and another pointer type")
+            if ck == "ArrayToPointerDecay" and inn[0].get("kind") == "StringLiteral":
+                return self.E(inn[0], k)
             if ck == "ArrayToPointerDecay":
                 return self.L(inn[0], lambda lv: k(lv[1]) if lv[0] == "cell" else self._bad("array held in a variable"))
         if kd == "UnaryOperator" and n.get("opcode") == "&":
@@ -285,8 +289,17 @@ class HeapFn(cxx2gal.LoopFn):
                     x = self.inner(x)[0]
                 con = "HFreeRec" if self.coqtype_safe(qual(x)) == "hptr" else "HFreeBuf"
                 return self.E(x, lambda p: self.E(inn[2], lambda sz: "(let evs := evs ++ [%s %s %s] in %s)" % (con, p, sz, k("0"))))
+            if isinstance(spec0, dict) and spec0.get("event") and spec0.get("args"):
+                # the event carries the values of the call's arguments; the call yields spec["value"]
+                args = list(inn[1:])
+
+                def evargs(i, acc):
+                    if i == len(args):
+                        return "(let evs := evs ++ [%s] in %s)" % (spec0["event"].format(*acc), k(spec0.get("value", "0")))
+                    return self.E(args[i], lambda v: evargs(i + 1, acc + [v]))
+                return evargs(0, [])
             if isinstance(spec0, dict) and spec0.get("event"):
-                return "(let evs := evs ++ [%s] in %s)" % (spec0["event"], k("0"))
+                return "(let evs := evs ++ [%s] in %s)" % (spec0["event"], k(spec0.get("value", "0")))
             if isinstance(spec0, dict) and spec0.get("pop"):          # the next value of an oracle stream (a ghost list)
                 g, r = spec0["pop"], self.tmp("o")
                 return "(match %s with nil => Oob | cons %s %s => %s end)" % (g, r, g, k(r))
@@ -328,6 +341,8 @@ class HeapFn(cxx2gal.LoopFn):
         fn = spec["fn"]
         r = self.tmp("r")
         gs = [g for g, _ in self.cfg.get("ghosts", [])]
+        if spec.get("noghost"):      # a translated function of another generated file whose group has no ghost variables
+            gs = []
         if gs:        # every translated function of a group with ghosts takes and returns them
             self.stores = True
             return "(match %s fuel0 mem %s %s with FOk (%s) => %s | FOob => Oob | FNoFuel => NoFuel end)" % (
@@ -337,8 +352,59 @@ class HeapFn(cxx2gal.LoopFn):
             return "(match %s fuel0 mem %s with FOk (%s, mem) => %s | FOob => Oob | FNoFuel => NoFuel end)" % (fn, " ".join(args), r, k(r))
         return "(match %s fuel0 mem %s with FOk %s => %s | FOob => Oob | FNoFuel => NoFuel end)" % (fn, " ".join(args), r, k(r))
 
+    # ------------------------------------------------------------------ local objects of classes that are not modelled
+    def ctor_spec(self, d):
+        """the spec {"ctor_event": E, "eval_args": [i...]} of a local variable of an unmodelled class, or None"""
+        if d.get("kind") != "VarDecl":
+            return None
+        spec = self.calls.get(self.rec_name(qual(d)))
+        return spec if isinstance(spec, dict) and spec.get("ctor_event") else None
+
+    def predeclare(self, n):
+        if self.ctor_spec(n):
+            return
+        if n.get("kind") in ("VarDecl", "ParmVarDecl") and n.get("name"):
+            try:
+                self.declare(n["name"], qual(n))
+            except Unsupported:
+                if n.get("kind") != "ParmVarDecl":
+                    raise
+        for c in self.inner(n):
+            self.predeclare(c)
+
+    def S(self, stmts, k, ctx):
+        if stmts and stmts[0].get("kind") == "DeclStmt" and any(self.ctor_spec(d) for d in self.inner(stmts[0])):
+            decls = self.inner(stmts[0])
+            if len(decls) != 1:
+                raise Unsupported("several declarations next to a constructed object")
+            spec = self.ctor_spec(decls[0])
+            ctor = self.inner(decls[0])[0]
+            while ctor.get("kind") in SKIP:
+                ctor = self.inner(ctor)[0]
+            if ctor.get("kind") != "CXXConstructExpr":
+                raise Unsupported("initialiser of %s is not a constructor call" % decls[0].get("name"))
+            args = self.inner(ctor)
+            todo = []
+            for i in spec.get("eval_args", []):
+                a = args[i]
+                while a.get("kind") in SKIP or a.get("kind") in CASTS or (a.get("kind") == "CXXConstructExpr" and len(self.inner(a)) == 1):
+                    a = self.inner(a)[0]
+                todo.append(a)
+            rest = stmts[1:]
+
+            def ev(i):
+                if i == len(todo):
+                    return "(let evs := evs ++ [%s] in %s)" % (spec["ctor_event"], self.S(rest, k, ctx))
+                return self.E(todo[i], lambda _: ev(i + 1))
+            return ev(0)
+        return super().S(stmts, k, ctx)
+
     # ------------------------------------------------------------------ syntactic facts
     def scan(self, n, refs, assigned, declared, flags):
+        if self.ctor_spec(n):
+            for g, _ in self.cfg.get("ghosts", []):
+                assigned.add(g)
+                refs.add(g)
         kd = n.get("kind")
         if kd == "MemberExpr":
             flags.add("mem")
